@@ -247,7 +247,9 @@ def r_option_normalised(ctx, repo):
                                  % (OPTION_SPEC[attr][0], given[OPTION_SPEC[attr][0]],
                                     (' with indent=%r' % i) if attr == 'best_width' else '', got[1], exp), given)
     for attr, (param, default, adm, what) in OPTION_SPEC.items():
-        g, n = [x for x in sites[attr] if x[0] is f][-1]
+        own = sorted((x for x in sites[attr] if x[0] is f), key=lambda x: x[1].lineno)
+        # report at the assignment that takes the option (the one that is not the constant default), else at the first
+        g, n = ([x for x in own if not isinstance(getattr(x[1], 'value', None), ast.Constant)] or own)[0]
         if attr not in bad:
             rule.ok(f.loc(n), 'self.%s is %s when %s, else %r (%d probe runs)' % (attr, param, what, default, len(runs)))
         else:
@@ -257,9 +259,10 @@ def r_option_normalised(ctx, repo):
     return rule
 
 
-def _origins(flow, node, expr, _seen=None):
+def _origins(flow, node, expr, _seen=None, choose=None):
     """where the value of `expr` at CFG node `node` comes from, following local assignments and .encode(): a set of
-    ('const', s) | ('charvar', name) | ('attr', path) | ('param', name) | ('other', text)."""
+    ('const', s) | ('charvar', name) | ('attr', path) | ('param', name) | ('other', text).  choose(node, test) may decide
+    which branch of a conditional expression is taken in the scenario at hand."""
     _seen = _seen if _seen is not None else set()
     if isinstance(expr, ast.Constant):
         return {('const', expr.value)}
@@ -281,20 +284,26 @@ def _origins(flow, node, expr, _seen=None):
             elif isinstance(v, ast.Subscript) and not isinstance(v.slice, ast.Slice):
                 out.add(('charvar', expr.id))
             else:
-                out |= _origins(flow, d, v, _seen)
+                out |= _origins(flow, d, v, _seen, choose)
         return out
     if RE._is_encode_call(expr):
-        return _origins(flow, node, expr.func.value, _seen)
+        return _origins(flow, node, expr.func.value, _seen, choose)
     if isinstance(expr, ast.Attribute):
         return {('attr', norm(expr))}
     if isinstance(expr, ast.BinOp):
-        return _origins(flow, node, expr.left, _seen) | _origins(flow, node, expr.right, _seen)
+        return _origins(flow, node, expr.left, _seen, choose) | _origins(flow, node, expr.right, _seen, choose)
     if isinstance(expr, ast.IfExp):
-        return _origins(flow, node, expr.body, _seen) | _origins(flow, node, expr.orelse, _seen)
+        v = choose(node, expr.test) if choose is not None else None
+        out = set()
+        if v is not False:
+            out |= _origins(flow, node, expr.body, _seen, choose)
+        if v is not True:
+            out |= _origins(flow, node, expr.orelse, _seen, choose)
+        return out
     if isinstance(expr, ast.JoinedStr):
         out = set()
         for v in expr.values:
-            out |= _origins(flow, node, v.value if isinstance(v, ast.FormattedValue) else v, _seen)
+            out |= _origins(flow, node, v.value if isinstance(v, ast.FormattedValue) else v, _seen, choose)
         return out
     return {('other', norm(expr)[:40])}
 
@@ -318,15 +327,25 @@ def r_break_funnel(ctx, repo):
     P = wlb.params[1]
     cfg = CFG(wlb.node)
 
-    def decide(n, flow):
-        t = n.ast
+    def none_test(n, t, flow):
+        """value of a test of the parameter against None while it still holds its entry value (None in this scenario)"""
+        if isinstance(t, ast.UnaryOp) and isinstance(t.op, ast.Not):
+            v = none_test(n, t.operand, flow)
+            return None if v is None else (not v)
+        if flow.defs(n, P) != frozenset([Flow.ENTRY]):
+            return None
         if isinstance(t, ast.Compare) and len(t.ops) == 1 and isinstance(t.left, ast.Name) and t.left.id == P \
-                and isinstance(t.comparators[0], ast.Constant) and t.comparators[0].value is None \
-                and flow.defs(n, P) == frozenset([Flow.ENTRY]):
-            return isinstance(t.ops[0], (ast.Is, ast.Eq))
-        if isinstance(t, ast.Name) and t.id == P and flow.defs(n, P) == frozenset([Flow.ENTRY]):
+                and isinstance(t.comparators[0], ast.Constant) and t.comparators[0].value is None:
+            if isinstance(t.ops[0], (ast.Is, ast.Eq)):
+                return True
+            if isinstance(t.ops[0], (ast.IsNot, ast.NotEq)):
+                return False
+        if isinstance(t, ast.Name) and t.id == P:
             return False
         return None
+
+    def decide(n, flow):
+        return none_test(n, n.ast, flow)
     flow = Flow(cfg, wlb.params, decide)
     writes = [(n, c) for n in cfg.nodes if n.ast is not None for c in own_exprs(n)
               if isinstance(c, ast.Call) and norm(c.func) == 'self.stream.write' and c.args and flow.reached(n)]
@@ -334,7 +353,7 @@ def r_break_funnel(ctx, repo):
         raise AnalysisError('write_line_break does not write to the stream')
     org = set()
     for n, c in writes:
-        org |= _origins(flow, n, c.args[0])
+        org |= _origins(flow, n, c.args[0], choose=lambda node, t: none_test(node, t, flow))
     if org == {('attr', 'self.best_line_break')}:
         rule.ok(wlb.loc(), 'write_line_break() defaults to best_line_break')
     else:
@@ -368,7 +387,12 @@ def r_break_funnel(ctx, repo):
                 why = 'raw'
             for v in chars:
                 r = S.reach(env={v: '\n'})
-                if any(n in r for n in nodes):
+                live = [n for n in nodes if n in r]
+                # what is handed over when that character is LF (a conditional expression may replace it)
+                org_lf = set()
+                for n in live:
+                    org_lf |= _origins(S.flow, n, a, choose=lambda node, t, v=v: CW.eval_cond(repo, t, {v: '\n'}))
+                if any(o == ('charvar', v) for o in org_lf) or (live and explicit and isinstance(a, ast.Name) and a.id == v):
                     why = 'lf'
             if explicit and not chars and not consts and why is None:
                 why = 'lf'          # an expression we cannot follow is handed over as the break
@@ -411,40 +435,42 @@ def r_encode_before_write(ctx, repo):
         cfg = CFG(f.node)
         plain = Flow(cfg, f.params)
 
+        def evaluator(value):
+            def ev(node, t):
+                return CW.eval_cond(repo, RE.subst(plain.deref(node, t), {'self.encoding': value}), {})
+            return ev
+
         def flow_for(value):
-            def decide(node, fl):
-                e = RE.subst(plain.deref(node, node.ast), {'self.encoding': value})
-                if e is node.ast:
-                    return None
-                return CW.eval_cond(repo, e, {})
-            return Flow(cfg, f.params, decide)
-        flows = [(enc, flow_for(enc)) for enc in ('utf-8', 'utf-16-le', None)]
+            ev = evaluator(value)
+            return Flow(cfg, f.params, lambda node, fl: ev(node, node.ast))
+        flows = [(enc, flow_for(enc), evaluator(enc)) for enc in ('utf-8', 'utf-16-le', None)]
+
+        def is_encoded(v, at):
+            return v is not None and RE._is_encode_call(v) and len(v.args) >= 1 \
+                and (_is_self_encoding(v.args[0]) or (at != Flow.ENTRY and _is_self_encoding(plain.deref(at, v.args[0]))))
         for idx, c in enumerate(sites):
             n += 1
             nodes = [x for x in cfg.nodes if x.ast is not None and any(y is c for y in own_exprs(x))]
             a = c.args[0] if c.args else None
             ok = a is not None and bool(nodes)
             seen_any = False
-            for enc, fl in flows:
+            for enc, fl, ev in flows:
                 for x in nodes:
                     if not fl.reached(x):
                         continue
                     seen_any = True
-                    if isinstance(a, ast.Name):
-                        ds = fl.defs(x, a.id)
-                        vals = [Flow.value_of(d) if d != Flow.ENTRY else None for d in ds]
-                        encoded = [v is not None and RE._is_encode_call(v) and len(v.args) >= 1 and _is_self_encoding(v.args[0])
-                                   for v in vals]
-                        any_encode = [v is not None and RE._is_encode_call(v) for v in vals]
-                        if enc is not None and not (vals and all(encoded)):
+                    for leaf in RE.expand_ifexp(a, lambda t: ev(x, t)):
+                        if isinstance(leaf, ast.Name):
+                            vals = fl.values(x, leaf.id, ev)
+                            if enc is not None and not (vals and all(is_encoded(v, d) for d, v in vals)):
+                                ok = False
+                            if enc is None and any(v is not None and RE._is_encode_call(v) for d, v in vals):
+                                ok = False
+                        elif is_encoded(leaf, x):
+                            if enc is None:
+                                ok = False
+                        else:
                             ok = False
-                        if enc is None and any(any_encode):
-                            ok = False
-                    elif RE._is_encode_call(a) and a.args and _is_self_encoding(a.args[0]):
-                        if enc is None:
-                            ok = False
-                    else:
-                        ok = False
             if not seen_any:
                 ok = False
             if ok:
@@ -467,6 +493,112 @@ def _io_kind(e):
     return None
 
 
+class _NoneScenario:
+    """three-valued evaluation of the tests of an API function in the scenario "parameter p is None / is an object" (for
+    the stream and encoding parameters), with locals followed through their reaching definitions: `x is None`, the truth
+    of a local bound to None / to an in-memory stream / to its bound method / to a boolean expression, `not`, and/or,
+    conditional expressions."""
+
+    def __init__(self, given):
+        self.given = given      # parameter -> True (is None) / False (is an object)
+
+    def noneness(self, node, e, fl, depth=0):
+        """True: None; False: an object; None: unknown"""
+        if depth > 6:
+            return None
+        if isinstance(e, ast.Constant):
+            return e.value is None
+        if _io_kind(e) or isinstance(e, (ast.Compare, ast.BoolOp)) or (isinstance(e, ast.UnaryOp) and isinstance(e.op, ast.Not)):
+            return False
+        if isinstance(e, ast.IfExp):
+            t = self.truth(node, e.test, fl, depth + 1)
+            alts = {self.noneness(node, b, fl, depth + 1) for b, keep in ((e.body, t is not False), (e.orelse, t is not True)) if keep}
+            return next(iter(alts)) if len(alts) == 1 else None
+        if isinstance(e, ast.Attribute) and isinstance(e.value, ast.Name):
+            # a bound method of an in-memory stream (stream.getvalue) is an object
+            kinds = self.io_kinds(node, e.value, fl)
+            return False if kinds and None not in kinds and 'param' not in kinds else None
+        if isinstance(e, ast.Name):
+            res = set()
+            for d in fl.defs(node, e.id):
+                if d == Flow.ENTRY:
+                    res.add(self.given.get(e.id))
+                else:
+                    v = Flow.value_of(d)
+                    res.add(None if v is None else self.noneness(d, v, fl, depth + 1))
+            return next(iter(res)) if len(res) == 1 else None
+        return None
+
+    def truth(self, node, e, fl, depth=0):
+        if depth > 6:
+            return None
+        if isinstance(e, ast.Constant):
+            return bool(e.value)
+        if isinstance(e, ast.UnaryOp) and isinstance(e.op, ast.Not):
+            v = self.truth(node, e.operand, fl, depth + 1)
+            return None if v is None else (not v)
+        if isinstance(e, ast.BoolOp):
+            return A.eval3(e, lambda a: self.truth(node, a, fl, depth + 1))
+        if isinstance(e, ast.Compare):
+            if len(e.ops) == 1 and isinstance(e.ops[0], (ast.Is, ast.IsNot, ast.Eq, ast.NotEq)):
+                l, r = e.left, e.comparators[0]
+                if isinstance(l, ast.Constant) and l.value is None:
+                    l, r = r, l
+                if isinstance(r, ast.Constant) and r.value is None:
+                    v = self.noneness(node, l, fl, depth + 1)
+                    if v is None:
+                        return None
+                    return v if isinstance(e.ops[0], (ast.Is, ast.Eq)) else (not v)
+            return None
+        if isinstance(e, ast.IfExp):
+            t = self.truth(node, e.test, fl, depth + 1)
+            alts = {self.truth(node, b, fl, depth + 1) for b, keep in ((e.body, t is not False), (e.orelse, t is not True)) if keep}
+            return next(iter(alts)) if len(alts) == 1 else None
+        if isinstance(e, ast.Name):
+            res = set()
+            for d in fl.defs(node, e.id):
+                if d == Flow.ENTRY:
+                    g = self.given.get(e.id)
+                    res.add(False if g is True else None)       # None is false; an arbitrary object: unknown
+                else:
+                    v = Flow.value_of(d)
+                    res.add(None if v is None else self.truth(d, v, fl, depth + 1))
+            return next(iter(res)) if len(res) == 1 else None
+        # in-memory streams and their bound methods are true
+        n = self.noneness(node, e, fl, depth + 1)
+        if n is True:
+            return False
+        if n is False and (_io_kind(e) or isinstance(e, ast.Attribute)):
+            return True
+        return None
+
+    def io_kinds(self, node, e, fl, depth=0):
+        """what the expression can be in this scenario: a set of 'StringIO' / 'BytesIO' / 'param' (the caller's object) /
+        None (anything else)."""
+        if depth > 6:
+            return {None}
+        if _io_kind(e):
+            return {_io_kind(e)}
+        if isinstance(e, ast.IfExp):
+            t = self.truth(node, e.test, fl, depth + 1)
+            out = set()
+            if t is not False:
+                out |= self.io_kinds(node, e.body, fl, depth + 1)
+            if t is not True:
+                out |= self.io_kinds(node, e.orelse, fl, depth + 1)
+            return out
+        if isinstance(e, ast.Name):
+            out = set()
+            for d in fl.defs(node, e.id):
+                if d == Flow.ENTRY:
+                    out.add('param')
+                else:
+                    v = Flow.value_of(d)
+                    out |= {None} if v is None else self.io_kinds(d, v, fl, depth + 1)
+            return out
+        return {None}
+
+
 def _stream_selection(repo, rule, f):
     """the str / bytes result clause for one API function, explored per scenario (stream given or None, encoding given or
     None) on the CFG with reaching definitions."""
@@ -477,97 +609,56 @@ def _stream_selection(repo, rule, f):
     ename = 'encoding' if 'encoding' in f.params else None
     cfg = CFG(f.node)
     problems = []
-
     for s_none in (True, False):
         for e_none in ((True, False) if ename else (True,)):
             given = {sname: s_none}
             if ename:
                 given[ename] = e_none
-
-            def noneness(node, e, fl, depth=0):
-                """True: is None; False: an object; None: unknown"""
-                if isinstance(e, ast.Constant):
-                    return e.value is None
-                if _io_kind(e):
-                    return False
-                if isinstance(e, ast.Attribute) and isinstance(e.value, ast.Name):
-                    # a bound method of an in-memory stream (stream.getvalue) is an object
-                    base = [Flow.value_of(d) if d != Flow.ENTRY else None for d in fl.defs(node, e.value.id)]
-                    if base and all(v is not None and _io_kind(v) for v in base):
-                        return False
-                    return None
-                if isinstance(e, ast.Name) and depth < 4:
-                    res = set()
-                    for d in fl.defs(node, e.id):
-                        if d == Flow.ENTRY:
-                            res.add(given.get(e.id))
-                        else:
-                            v = Flow.value_of(d)
-                            res.add(None if v is None else noneness(d, v, fl, depth + 1))
-                    if len(res) == 1:
-                        return next(iter(res))
-                return None
-
-            def decide(node, fl):
-                t = node.ast
-                if isinstance(t, ast.Compare) and len(t.ops) == 1 and isinstance(t.ops[0], (ast.Is, ast.IsNot, ast.Eq, ast.NotEq)):
-                    l, r = t.left, t.comparators[0]
-                    if isinstance(l, ast.Constant) and l.value is None:
-                        l, r = r, l
-                    if isinstance(r, ast.Constant) and r.value is None:
-                        v = noneness(node, l, fl)
-                        if v is None:
-                            return None
-                        return v if isinstance(t.ops[0], (ast.Is, ast.Eq)) else (not v)
-                    return None
-                v = noneness(node, t, fl)
-                return None if v is None else (not v)
-            fl = Flow(cfg, f.params, decide)
+            sc = _NoneScenario(given)
+            fl = Flow(cfg, f.params, lambda node, fl_: sc.truth(node, node.ast, fl_))
             what = 'stream %s, encoding %s' % ('None' if s_none else 'given', 'None' if e_none else 'given')
+            want_io = 'StringIO' if e_none else 'BytesIO'
             cnodes = [x for x in cfg.nodes if x.ast is not None and fl.reached(x) and any(y is call for y in own_exprs(x))]
             if not cnodes:
                 raise AnalysisError('yaml.%s: the dumper instantiation is not reached with %s' % (f.name, what))
             for x in cnodes:
-                ds = fl.defs(x, call.args[0].id)
-                kinds = {('param' if d == Flow.ENTRY else _io_kind(Flow.value_of(d)) if Flow.value_of(d) is not None else None)
-                         for d in ds}
-                want = {'param'} if not s_none else {'StringIO' if e_none else 'BytesIO'}
+                kinds = sc.io_kinds(x, call.args[0], fl)
+                want = {'param'} if not s_none else {want_io}
                 if kinds != want:
                     problems.append('with %s the dumper writes to %s instead of %s'
                                     % (what, '/'.join(sorted(str(k) for k in kinds)) or 'nothing', '/'.join(sorted(want))))
             # the result
-            rets = [x for x in cfg.nodes if x.kind == 'return' and fl.reached(x) and x.ast.value is not None
-                    and not (isinstance(x.ast.value, ast.Constant) and x.ast.value.value is None)]
-            falls = fl.reached(cfg.exit_fall) or any(x.kind == 'return' and fl.reached(x) and x not in rets for x in cfg.nodes)
+            valued, bare = [], False
+            for x in cfg.nodes:
+                if x.kind != 'return' or not fl.reached(x):
+                    continue
+                leaves = RE.expand_ifexp(x.ast.value, lambda t, x=x: sc.truth(x, t, fl)) if x.ast.value is not None else [None]
+                for v in leaves:
+                    if v is None or (isinstance(v, ast.Constant) and v.value is None):
+                        bare = True
+                    else:
+                        valued.append((x, v))
+            falls = fl.reached(cfg.exit_fall) or bare
             if s_none:
                 if falls:
                     problems.append('with %s the function can complete without returning the produced text' % what)
-                for x in rets:
-                    v = x.ast.value
+                for x, v in valued:
                     good = False
                     if isinstance(v, ast.Call) and not v.args and not v.keywords:
                         g = v.func
                         targets = []
-                        if isinstance(g, ast.Attribute) and g.attr == 'getvalue' and isinstance(g.value, ast.Name):
-                            targets = [(x, g.value.id)]
+                        if isinstance(g, ast.Attribute) and g.attr == 'getvalue':
+                            targets = [(x, g.value)]
                         elif isinstance(g, ast.Name):
-                            gd = fl.defs(x, g.id)
-                            vals = [Flow.value_of(d) if d != Flow.ENTRY else None for d in gd]
-                            if vals and all(isinstance(w, ast.Attribute) and w.attr == 'getvalue' and isinstance(w.value, ast.Name)
-                                            for w in vals):
-                                targets = [(d, Flow.value_of(d).value.id) for d in gd]
-                        if targets:
-                            good = True
-                            for at, nm in targets:
-                                srcs = [Flow.value_of(d) if d != Flow.ENTRY else None for d in fl.defs(at, nm)]
-                                if not srcs or not all(w is not None and _io_kind(w) == ('StringIO' if e_none else 'BytesIO')
-                                                       for w in srcs):
-                                    good = False
+                            vals = fl.values(x, g.id, lambda d, t: sc.truth(d, t, fl))
+                            if vals and all(isinstance(w, ast.Attribute) and w.attr == 'getvalue' for d, w in vals):
+                                targets = [(d, w.value) for d, w in vals]
+                        good = bool(targets) and all(sc.io_kinds(at, e, fl) == {want_io} for at, e in targets)
                     if not good:
                         problems.append('with %s the function returns %s, not the getvalue() of the stream it created'
                                         % (what, norm(v)[:40]))
-            elif rets:
-                problems.append('with %s the function returns %s instead of None' % (what, norm(rets[0].ast.value)[:40]))
+            elif valued:
+                problems.append('with %s the function returns %s instead of None' % (what, norm(valued[0][1])[:40]))
     return problems
 
 
